@@ -8,7 +8,6 @@ use crate::{
     },
     reader::WriteXml,
 };
-use inflector::cases::pascalcase::to_pascal_case;
 use reqwest::Url;
 use std::{io, rc::Rc};
 
@@ -105,7 +104,7 @@ where
     // generate an async fn for the operation
     let rust_fn_name = as_field_name(operation_name);
     // the envelope types are named after the PascalCase operation name by the binding writer
-    let operation_name = to_pascal_case(operation_name);
+    let operation_name = xml_name_to_rust_name(operation_name);
     let request_name = format!("{operation_name}InputEnvelope");
     let response_name = operation
         .output
